@@ -238,7 +238,7 @@ fn apply_arith(acc: &Tensor, op: &str, arg: &[Tensor], extra: &Value) -> Result<
             "sub" => x.sub_inplace(&arg[0]),
             "mul" => x.mul_inplace(&arg[0]),
             "hadamard" => x.hadamard(&arg[0], extra.as_i64().unwrap() as f32),
-            "div" => x.div_scalar_inplace(extra.as_i64().unwrap() as f32),
+            "div" => x.div_scalar_inplace(num(extra)),
             "mean" => x.mean_inplace(&arg.iter().collect()),
             "clamp" => x = x.clamp(extra[0].as_i64().unwrap() as f32, extra[1].as_i64().unwrap() as f32),
             "transpose" => x = x.transpose(),
@@ -257,7 +257,7 @@ fn native(op: &str, a: f32, bs: &[f32], extra: &Value) -> f32 {
         "sub" => a - bs[0],
         "mul" => a * bs[0],
         "hadamard" => a * bs[0] * extra.as_i64().unwrap() as f32,
-        "div" => a / extra.as_i64().unwrap() as f32,
+        "div" => a / num(extra),
         "mean" => (a + bs.iter().sum::<f32>()) / (bs.len() + 1) as f32,
         "clamp" => a.clamp(extra[0].as_i64().unwrap() as f32, extra[1].as_i64().unwrap() as f32),
         _ => unreachable!(),
